@@ -296,11 +296,16 @@ def run_real_trace(d, prog, seed, inject=None, max_events=400, style='yaql'):
         r = rng.random()
         acc = 0.0
         chosen = None
-        for name in ('pause', 'resume', 'stop', 'rerun', 'skip', 'dup'):
+        for name in ('pause', 'resume', 'stop', 'rerun', 'skip', 'dup', 'evict'):
             acc += inject.get(name, 0.0)
             if r < acc:
                 chosen = name
                 break
+        if chosen == 'evict':
+            from mistral.lang import parser as spec_parser
+            spec_parser.clear_caches()
+            record('evict', 'EEvict', 'ok')
+            continue
         if chosen == 'pause':
             record('pause', 'EPause', d.operator('pause', _wf_id(d)))
             continue
@@ -627,6 +632,10 @@ def replay_labels(d, prog, seed, labels, style='yaql', lenient=False):
         if label == 'start':
             out, _ = d.start_workflow('wf', {})
             real_view(d, prog)
+        elif label == 'evict':
+            from mistral.lang import parser as spec_parser
+            spec_parser.clear_caches()
+            out = 'ok'
         elif label == 'pause':
             out = d.operator('pause', _wf_id(d))
         elif label == 'resume':
@@ -682,6 +691,8 @@ def replay_labels(d, prog, seed, labels, style='yaql', lenient=False):
 def _label_to_coq(label):
     if label == 'start':
         return 'EStart'
+    if label == 'evict':
+        return 'EEvict'
     if label == 'pause':
         return 'EPause'
     if label == 'resume':
@@ -709,7 +720,76 @@ PROFILES = {
     'stop': {'stop': 0.04, 'pause': 0.02, 'resume': 0.02},
     'rerun': {'rerun': 0.07, 'skip': 0.04, 'pause': 0.01, 'resume': 0.02},
     'dup': {'dup': 0.12},
+    'evict': {'evict': 0.3},
 }
+
+
+def final_summary(tr):
+    """Schedule-independent summary of a finished run: workflow state and the multiset of
+    (task name, state, next tasks) (C02 oracle)."""
+    if not tr.views:
+        return None
+    wf, backlog, tasks, acts, pend = tr.views[-1]
+    rows = []
+    for t in (tasks.split(';') if tasks else []):
+        f = t.split(',', 6)
+        rows.append((f[0], f[1], f[6]))
+    return (wf, tuple(sorted(rows)))
+
+
+def den_class(prog):
+    """The order-insensitive fragment of the property text: acyclic, no engine command that can race
+    another branch (fail / succeed / pause), joins only `all` (a partial join's outcome legitimately
+    depends on which branch arrives first when downstream reads nothing... kept out to be safe)."""
+    if prog.has_cycle():
+        return False
+    for t in prog.tasks:
+        if t.get('join') not in (None, 'all'):
+            return False
+        for f in ('succ', 'err', 'compl'):
+            for tg, g in (t.get(f) or []):
+                if tg in ('fail', 'succeed', 'pause'):
+                    return False
+    return True
+
+
+def schedule_independence(ctx, n_programs, n_schedules, suite='schedule_independence'):
+    """C02 oracle on the real engine: the same program under different delivery orders (and with the
+    definition caches dropped at random points) ends with the same summary."""
+    rng = random.Random('%s/%s' % (suite, ctx.seed))
+    jobs = []
+    progs = []
+    while len(progs) < n_programs:
+        p = gen_program(rng, max_tasks=6, allow_cycles=False, allow_cmds=False, join_kinds=('all',))
+        if den_class(p):
+            progs.append(p)
+    for pi, p in enumerate(progs):
+        for k in range(n_schedules):
+            jobs.append({'tasks': p.tasks, 'seed': ctx.seed * 7919 + pi * 101 + k, 'pi': pi,
+                         'inject': PROFILES['evict'] if k % 2 else {}, 'max_events': 300,
+                         'sched': 'default' if k % 3 == 2 else 'legacy'})
+    traces = run_jobs(jobs)
+    by = collections.defaultdict(list)
+    for t in traces:
+        if getattr(t, 'quiescent', False) and not t.unsupported:
+            by[t.job['pi']].append(t)
+    n_groups = 0
+    for pi, ts in by.items():
+        sums = collections.Counter(final_summary(t) for t in ts)
+        ctx.count(suite, (json_key(progs[pi].tasks),), nontrivial=len(progs[pi].tasks) >= 3, evaluations=len(ts))
+        n_groups += 1
+        if len(sums) > 1:
+            a, b = list(sums)[:2]
+            ta = next(t for t in ts if final_summary(t) == a)
+            tb = next(t for t in ts if final_summary(t) == b)
+            ctx.fail('schedule-dependent-result', 'two delivery orders of the same program end differently: %s vs %s' % (a[0], b[0]),
+                     dict(ta.to_json(), events=ta.labels, other_events=tb.labels, final_a=a, final_b=b, kind='engine-trace'))
+    st = ctx.cov['suites'].setdefault(suite, {})
+    st['programs'] = n_groups
+    st['schedules_per_program'] = n_schedules
+    models = model_traces([t for t in traces if not t.unsupported], name=suite)
+    compare(ctx, suite, [t for t in traces if not t.unsupported], models)
+    return traces
 
 CORPUS_DIR = os.path.join(core.VERIF, 'corpus', 'engine')
 
